@@ -77,8 +77,13 @@ class Engine:
             s.fns.update(mirparse.parse_mir(open(path).read(), crate))
         s.typedefs = {k: list(v) for k, v in mirparse.typedefs().items()}
         s.repo_types = set(s.typedefs)
+        foreign = []
         if "tx3-cardano" in mir_files:
-            for c in ("pallas-primitives", "pallas-codec", "pallas-addresses", "pallas-crypto"):
+            foreign += ["pallas-primitives", "pallas-codec", "pallas-addresses", "pallas-crypto"]
+        if "tx3-resolver" in mir_files:
+            foreign += ["serde_json"]
+        if foreign:
+            for c in foreign:
                 for name, defs in mirparse.foreign_crate_types(c).items():
                     if name in s.repo_types:
                         continue
@@ -99,9 +104,10 @@ class Engine:
         s._trait_cache = {}
         s._callee_cache = {}
         s._fnmod_cache = {}
-        import models, models_pallas
+        import models, models_pallas, models_str
         models.register(s)
         models_pallas.register(s)
+        models_str.register(s)
 
     # ------------------------------------------------------------------ indices
     def _index(s):
@@ -126,6 +132,9 @@ class Engine:
                 key = f.impl_span
                 if key not in impl_by_span:
                     h = mirparse.impl_header(*key)
+                    if h is None and method == "from" and len(f.args) == 1:
+                        # thiserror's `#[from]`: `impl From<FieldType> for ErrorEnum`
+                        h = ("From", f.args[0][1], f.ret, False, "")
                     if h is None:
                         continue
                     stem = os.path.basename(key[0])[:-3]
